@@ -153,3 +153,5 @@ func mWorkerMain() {
 		}
 	}
 }
+
+func init() { registerWorker("mworker", mWorkerMain) }
